@@ -596,6 +596,12 @@ namespace
       else s.replace(a.vbeg, a.vend - a.vbeg, vals[op]);
       b.assign(s.begin(), s.end());
       log.ops += "ATTR_CHANGE(" + name + (op == 15 ? ",dropped" : op == 16 ? ",doubled" : std::string(",'") + vals[op] + "'") + ") ";
+      // every numeric attribute of the format has a fixed number of components, at most four: seven are too many
+      if(op == 8)
+      {
+        static const char* numeric[] = {"midpoint", "radius", "domain", "size", "dim", "version", "verts", "trias", "priority", "level", "rank"};
+        for(const char* n : numeric) if(name == n) { log.must_reject = true; log.why += "the numeric attribute '" + name + "' got seven components; "; }
+      }
       sim::count_fault("ATTR_CHANGE");
     }
 
